@@ -223,12 +223,32 @@ var byteStreamSeeds = []string{
 	"0000010000010000010000000001", "00000000000000000000010000", "0000016700000168", "00000140010000014201000001440100000102",
 }
 
+var isByteStreamTarget = map[string]bool{}
+
+// genByteStream: zero-rich bytes with lengths at and around the machine-word boundaries of the scanner's
+// fast loop (multiples of 8, +-1, +-2), start codes of both lengths at the boundaries, zero tails.
+func genByteStream(r *hx.Rng) []byte {
+	L := r.Pick(0, 1, 2, 3, 4, 5, 7, 8, 9, 10, 15, 16, 17, 18, 23, 24, 25, 31, 32, 33, 40, 41, 47, 48, 49)
+	b := r.Bytes(L, []byte{0, 0, 0, 0, 1, 1, 2, 3, 0x67, 0x68, 0x65, 0x40, 0x42, 0x44, 0x26, 0xff})
+	for k := r.Intn(4); k > 0 && L >= 4; k-- { // plant start codes near word boundaries
+		p := r.Pick(0, 4, 5, 6, 7, 8, 12, 13, 14, 15, 16, 21, 22, 23, 24)
+		if p+4 <= L {
+			copy(b[p:], []byte{0, 0, 0, 1}[r.Intn(2):])
+		}
+	}
+	for k := r.Intn(4); k > 0 && L-k >= 0; k-- { // zero tail
+		b[L-k] = 0
+	}
+	return b
+}
+
 func init() {
 	for _, t := range []string{"avc.ExtractNalusFromByteStream", "avc.ConvertByteStreamToNaluSample",
 		"avc.GetParameterSetsFromByteStream", "avc.ExtractNalusOfTypeFromByteStream",
 		"avc.GetFirstAVCVideoNALUFromByteStream", "hevc.GetParameterSetsFromByteStream",
 		"hevc.ExtractNalusOfTypeFromByteStream"} {
 		seedsOf[t] = byteStreamSeeds
+		isByteStreamTarget[t] = true
 	}
 }
 
@@ -309,6 +329,10 @@ func searchCases(seed uint64, round, n, total int) []tcase {
 			var in []byte
 			if name == "avc.ParsePSAndSlice" || name == "hevc.ParsePSAndSlice" {
 				cs = append(cs, tcase{name, genPipeline(r, name[:strings.Index(name, ".")]), 0})
+				continue
+			}
+			if isByteStreamTarget[name] && r.Intn(2) == 0 {
+				cs = append(cs, tcase{name, genByteStream(r), argsFor(r, name)})
 				continue
 			}
 			pre, hasSoup := soupPrefix[name]
